@@ -723,6 +723,9 @@ class World(object):
             self.rec({"k": "wait", "dt": 0, "ready": False, "want": want, "why": "raise"})
             raise (OSError(9, 'Bad file descriptor (sim)') if self.cur['wait_broken'] == 'error' else Boom('wait'))
         s = self.next_step()
+        if s['kind'] == 'outlived':
+            # the script ends here: a client that is still waiting has outlived every time-out it was configured with
+            raise Watchdog('the loop is still running after the scripted flood of event-less data (%d ticks)' % self.ticks)
         if s['kind'] == 'silence':
             self.cur['silent'] = True
             s = {"kind": "timeout"}
